@@ -68,12 +68,18 @@ mod verif_entry {
     static mut HAS_ENTRY_OPTIONS: bool = true;
     static mut ENTRY_SAMPLE_COUNT: Option<u32> = None;   // options that must not influence which thread counts are run
     static mut ENTRY_SAMPLE_SIZE: Option<u32> = None;
+    static mut ENTRY_ITEMS: Option<u64> = None;
+    static mut ENTRY_SKIP_EXT: Option<bool> = None;
+    // what the benchmark function saw as its resolved options (sample_count, sample_size, skip_ext_time, items counter)
+    static mut SEEN_OPTS: (Option<u32>, Option<u32>, Option<bool>, Option<u64>) = (None, None, None, None);
 
     fn bench_fn(b: Bencher) {
         unsafe {
             if NRUNS < 4 { RUNS[NRUNS] = b.context.thread_count.get(); }
             NRUNS += 1;
             if !crate::benchmark::verif_is_fresh(b.context) { ALL_FRESH = false; }
+            let o = b.context.options;
+            SEEN_OPTS = (o.sample_count, o.sample_size, o.skip_ext_time, o.counters.get(crate::counter::KnownCounterKind::Items).map(|c| c as u64));
         }
         b.bench(|| 1u8);
     }
@@ -84,6 +90,8 @@ mod verif_entry {
             ignore: unsafe { ENTRY_IGNORE },
             sample_count: unsafe { ENTRY_SAMPLE_COUNT },
             sample_size: unsafe { ENTRY_SAMPLE_SIZE },
+            skip_ext_time: unsafe { ENTRY_SKIP_EXT },
+            counters: { let mut c = crate::counter::CounterSet::default(); if let Some(n) = unsafe { ENTRY_ITEMS } { c.insert(crate::counter::ItemsCount::new(n)); } c },
             ..Default::default()
         }
     }
@@ -175,6 +183,42 @@ mod verif_entry {
         assert!(unsafe { NRUNS } == 1 && unsafe { RUNS[0] } == expect, "[C15] run-time thread option over the benchmark's own, else the default");
         kani::cover!(true);
     }
+    // every option resolves independently through the real run_bench_entry: the runner's value if set, else the entry's;
+    // whatever combination of OTHER options is set at either level (two Option<u32>, an Option<bool> and a counter, all symbolic)
+    entry_harness!(runner_over_entry_per_option, {
+        // (the counter is concrete - set at run time only -: with a symbolic counter set CBMC explores the allocations of
+        //  CounterSet::to_collection for every combination and does not finish)
+        let e3: (Option<u32>, Option<u32>, Option<bool>) = kani::any();
+        let r3: (Option<u32>, Option<u32>, Option<bool>) = kani::any();
+        let e = (e3.0, e3.1, e3.2, None::<u64>);
+        let r = (r3.0, r3.1, r3.2, Some(7u64));
+        unsafe { ENTRY_NTHREADS = 0; ENTRY_IGNORE = None; HAS_ENTRY_OPTIONS = true;
+                 ENTRY_SAMPLE_COUNT = e.0; ENTRY_SAMPLE_SIZE = e.1; ENTRY_SKIP_EXT = e.2; ENTRY_ITEMS = e.3; }
+        let mut d = Divan::default();
+        d.bench_options.sample_count = r.0; d.bench_options.sample_size = r.1; d.bench_options.skip_ext_time = r.2;
+        if let Some(n) = r.3 { d.bench_options.counters.insert(crate::counter::ItemsCount::new(n)); }
+        run(&d, Action::Test, &ENTRY, None);
+        assert!(unsafe { NRUNS } == 1);
+        let seen = unsafe { SEEN_OPTS };
+        assert!(seen.0 == r.0.or(e.0), "[C15] sample_count: run-time value, else the benchmark's");
+        assert!(seen.1 == r.1.or(e.1), "[C15] sample_size: run-time value, else the benchmark's");
+        assert!(seen.2 == r.2.or(e.2), "[C15] skip_ext_time: run-time value, else the benchmark's");
+        assert!(seen.3 == r.3.or(e.3), "[C15] items counter: run-time value, else the benchmark's (setting other options at another level must not mask it)");
+        kani::cover!(r.0.is_none() && r.1.is_none() && r.2.is_none() && e.0.is_some());
+    });
+    // one concrete instance of the above (cheap also when the code under check makes the symbolic one expensive): only a counter
+    // is set at run time, the benchmark sets an unrelated option
+    entry_harness!(runner_counter_kept_when_entry_sets_another_option, {
+        unsafe { ENTRY_NTHREADS = 0; ENTRY_IGNORE = None; HAS_ENTRY_OPTIONS = true;
+                 ENTRY_SAMPLE_COUNT = Some(3); ENTRY_SAMPLE_SIZE = None; ENTRY_SKIP_EXT = None; ENTRY_ITEMS = None; }
+        let mut d = Divan::default();
+        d.bench_options.counters.insert(crate::counter::ItemsCount::new(7u64));
+        run(&d, Action::Test, &ENTRY, None);
+        let seen = unsafe { SEEN_OPTS };
+        assert!(unsafe { NRUNS } == 1 && seen.0 == Some(3), "[C15] the benchmark's own sample_count is used when none is given at run time");
+        assert!(seen.3 == Some(7), "[C15] a counter given at run time is not masked by an unrelated option set on the benchmark");
+        kani::cover!(true);
+    });
     entry_harness!(runner_over_entry_both, { runner_over_entry_case(true, true); });
     entry_harness!(runner_over_entry_entry_only, { runner_over_entry_case(true, false); });
 
@@ -231,6 +275,8 @@ mod verif_entry {
 HARNESSES = [
     ("thread_counts_two", "run_bench_entry: thread list 0 -> parallelism, sort, dedup; fresh context per count", "entry thread lists of length 2 over {0,1,2,3}"),
     ("thread_counts_one", "run_bench_entry: thread list of length 1", "entry thread lists of length 1 over {0,1,2,3}"),
+    ("runner_over_entry_per_option", "run_bench_entry: sample_count, sample_size, skip_ext_time and the items counter resolve independently, runner over entry", "every combination of set / unset and every value of three options at both levels, an items counter set at run time only; default thread list"),
+    ("runner_counter_kept_when_entry_sets_another_option", "run_bench_entry: a run-time counter survives an unrelated option of the benchmark", "one configuration"),
     ("runner_over_entry_both", "run_bench_entry: runner.overwrite(entry) for threads, both set", "one configuration"),
     ("runner_over_entry_entry_only", "run_bench_entry: entry's thread option used when the runner sets none", "one configuration"),
     ("ignore_decision", "run_bench_entry: ignore_leaf vs run", "all 3 x 3 ignore/flag combinations"),
